@@ -60,7 +60,12 @@ impl GlideProcessor {
 
         self.cached_t = t;
 
-        let f0 = (1.0_f32 / t).max(self.min_fc).min(self.max_fc);
+        // a time of zero means no glide at all, this includes negative zero whose reciprocal is negative infinity
+        let f0 = if t == 0.0_f32 {
+            self.max_fc
+        } else {
+            (1.0_f32 / t).max(self.min_fc).min(self.max_fc)
+        };
         self.lpf.update_coefficients(coeffs(self.fs, f0.hz()))
     }
 
